@@ -157,7 +157,8 @@ mod k {
     include!(concat!(env!("ISOMER_ERBIUM_VERIF_DIR"), "/_common.rs"));
     use yaml_rust::yaml::Yaml;
 
-    // N symbolic ASCII octets as a String (UTF-8 validity is checked by the real std::str::from_utf8)
+    // N symbolic ASCII octets as a String.  Every octet is assumed < 128 and ASCII is valid UTF-8, so the
+    // validating constructor is skipped (std::str::from_utf8 alone costs ~30 s of solver time at N = 4).
     fn ascii<const N: usize>() -> (String, [u8; N]) {
         let b: [u8; N] = kani::any();
         let mut i = 0;
@@ -165,14 +166,15 @@ mod k {
             kani::assume(b[i] < 128);
             i += 1;
         }
-        (String::from(std::str::from_utf8(&b).unwrap()), b)
+        (unsafe { String::from_utf8_unchecked(b.to_vec()) }, b)
     }
-    // concrete prefix P followed by N symbolic ASCII octets
+    // concrete ASCII text `head` followed by N symbolic ASCII octets
     fn with_tail<const N: usize>(head: &str) -> (String, [u8; N]) {
-        let (t, b) = ascii::<N>();
-        let mut s = String::from(head);
-        s.push_str(&t);
-        (s, b)
+        let (_, b) = ascii::<N>();
+        let mut v = Vec::with_capacity(head.len() + N);
+        v.extend_from_slice(head.as_bytes());
+        v.extend_from_slice(&b);
+        (unsafe { String::from_utf8_unchecked(v) }, b)
     }
     fn is_invalid_config<T>(r: &Result<T, Error>) -> bool {
         matches!(r, Err(Error::InvalidConfig(_)))
@@ -220,27 +222,25 @@ mod k {
         std::mem::forget(y);
     }
 
-    /// VERIF: {"p":"C19","tier":"quick","fns":["config::type_to_name"],"bounds":"one value of every Yaml variant: Real, Integer(any i64), String, Boolean(any), Array of 1 and 2 elements, nested array, empty Hash, Alias(any), Null, BadValue - every collection NON-empty","oracle":"returns a name, no panic","stubs":["alloc::fmt::format -> empty string (message text only)","std::hash::RandomState::new -> fixed keys (creating the empty Hash)"],"covers":1,"unwind":4}
+    /// VERIF: {"p":"C19","tier":"quick","fns":["config::type_to_name"],"bounds":"one value of every Yaml variant, one after the other: Real, Integer(any i64), String, Boolean(any), Array of 1 and 2 elements, nested array, empty Hash, Alias(any), Null, BadValue - every collection NON-empty","oracle":"returns a name, no panic","stubs":["alloc::fmt::format -> empty string (message text only)","std::hash::RandomState::new -> fixed keys (creating the empty Hash)"],"covers":1,"unwind":4}
     #[kani::proof]
     #[kani::unwind(4)]
     #[kani::stub(alloc::fmt::format, empty_format)]
     #[kani::stub(std::hash::RandomState::new, fixed_random_state)]
     fn c19_type_to_name_nonempty_values() {
-        match kani::any::<u8>() {
-            0 => type_to_name_on(KIND_REAL),
-            1 => type_to_name_on(KIND_INT),
-            2 => type_to_name_on(KIND_STR),
-            3 => type_to_name_on(KIND_BOOL),
-            4 => type_to_name_on(KIND_ARR_NULL),
-            5 => type_to_name_on(KIND_ARR_MIXED),
-            6 => type_to_name_on(KIND_HASH_EMPTY),
-            7 => type_to_name_on(KIND_ALIAS),
-            8 => type_to_name_on(KIND_NULL),
-            9 => type_to_name_on(KIND_BAD),
-            10 => type_to_name_on(KIND_ARR_NESTED),
-            _ => type_to_name_on(KIND_ARR_STRS),
-        }
-        kani::cover!(true, "reached");
+        type_to_name_on(KIND_REAL);
+        type_to_name_on(KIND_INT);
+        type_to_name_on(KIND_STR);
+        type_to_name_on(KIND_BOOL);
+        type_to_name_on(KIND_ARR_NULL);
+        type_to_name_on(KIND_ARR_MIXED);
+        type_to_name_on(KIND_HASH_EMPTY);
+        type_to_name_on(KIND_ALIAS);
+        type_to_name_on(KIND_NULL);
+        type_to_name_on(KIND_BAD);
+        type_to_name_on(KIND_ARR_NESTED);
+        type_to_name_on(KIND_ARR_STRS);
+        kani::cover!(true, "every call returned");
     }
 
     /// VERIF: {"p":"C19","tier":"quick","fns":["config::type_to_name"],"bounds":"the empty sequence `[]` (Yaml::Array(vec![])) and a sequence holding it `[[]]`","oracle":"returns a name, no panic (this is the function every typed parser calls to describe a wrongly typed value)","stubs":["alloc::fmt::format -> empty string (message text only)"],"covers":1,"unwind":4}
@@ -332,30 +332,33 @@ mod k {
         std::mem::forget(y);
     }
 
-    /// VERIF: {"p":"C19","tier":"quick","fns":["config::parse_i64","config::parse_num::<u8>","config::parse_num::<u32>","config::parse_string","config::parse_boolean","config::parse_duration","config::parse_string_hwaddr","config::parse_string_ip","config::parse_string_ip4","config::parse_string_ip6","config::parse_string_prefix","config::parse_string_prefix4","config::parse_string_prefix6","config::parse_string_sockaddr","config::type_to_name"],"bounds":"each parser on one value of every Yaml variant (Real, Integer(any i64), String \"x\", Boolean(any), arrays of 1-2 elements, nested array, empty Hash, Alias(any), Null, BadValue); every array NON-empty","oracle":"right type => Ok(Some(value)); Null => Ok(None); every wrong type (and out-of-range integer) => Err(InvalidConfig); never a panic","stubs":["alloc::fmt::format -> empty string (message text only)","std::hash::RandomState::new -> fixed keys (creating the empty Hash)"],"covers":3,"unwind":8}
+    /// VERIF: {"p":"C19","tier":"quick","fns":["config::parse_i64","config::parse_num::<u8>","config::parse_num::<u32>","config::parse_string","config::parse_boolean","config::parse_duration","config::parse_string_hwaddr","config::parse_string_ip","config::parse_string_ip4","config::parse_string_ip6","config::parse_string_prefix","config::parse_string_prefix4","config::parse_string_prefix6","config::parse_string_sockaddr","config::type_to_name"],"bounds":"each parser on one value of every scalar Yaml variant, one after the other: Real, Integer(any i64), String \"x\", Boolean(any), Alias(any), Null, BadValue","oracle":"right type => Ok(Some(value)); Null => Ok(None); every wrong type (and out-of-range integer) => Err(InvalidConfig); never a panic","stubs":["alloc::fmt::format -> empty string (message text only)"],"covers":1,"unwind":8}
+    #[kani::proof]
+    #[kani::unwind(8)]
+    #[kani::stub(alloc::fmt::format, empty_format)]
+    fn c19_scalar_parsers_wrong_scalar() {
+        scalar_parsers_on(KIND_REAL);
+        scalar_parsers_on(KIND_INT);
+        scalar_parsers_on(KIND_STR);
+        scalar_parsers_on(KIND_BOOL);
+        scalar_parsers_on(KIND_ALIAS);
+        scalar_parsers_on(KIND_NULL);
+        scalar_parsers_on(KIND_BAD);
+        kani::cover!(true, "every call returned");
+    }
+
+    /// VERIF: {"p":"C19","tier":"quick","fns":["config::parse_i64","config::parse_num::<u8>","config::parse_num::<u32>","config::parse_string","config::parse_boolean","config::parse_duration","config::parse_string_hwaddr","config::parse_string_ip","config::parse_string_ip4","config::parse_string_ip6","config::parse_string_prefix","config::parse_string_prefix4","config::parse_string_prefix6","config::parse_string_sockaddr","config::type_to_name"],"bounds":"each parser on a collection where a scalar is expected, one after the other: `[~]`, `[<any int>, \"\"]`, `[[true]]`, `[\"a\",\"b\"]` and the empty mapping; every sequence NON-empty","oracle":"Err(InvalidConfig); never a panic","stubs":["alloc::fmt::format -> empty string (message text only)","std::hash::RandomState::new -> fixed keys (creating the empty Hash)"],"covers":1,"unwind":8}
     #[kani::proof]
     #[kani::unwind(8)]
     #[kani::stub(alloc::fmt::format, empty_format)]
     #[kani::stub(std::hash::RandomState::new, fixed_random_state)]
-    fn c19_scalar_parsers_wrong_type() {
-        let k: u8 = kani::any();
-        kani::cover!(k == 1, "integer");
-        kani::cover!(k == 6, "hash where a scalar is expected");
-        kani::cover!(k == 10, "nested array where a scalar is expected");
-        match k {
-            0 => scalar_parsers_on(KIND_REAL),
-            1 => scalar_parsers_on(KIND_INT),
-            2 => scalar_parsers_on(KIND_STR),
-            3 => scalar_parsers_on(KIND_BOOL),
-            4 => scalar_parsers_on(KIND_ARR_NULL),
-            5 => scalar_parsers_on(KIND_ARR_MIXED),
-            6 => scalar_parsers_on(KIND_HASH_EMPTY),
-            7 => scalar_parsers_on(KIND_ALIAS),
-            8 => scalar_parsers_on(KIND_NULL),
-            9 => scalar_parsers_on(KIND_BAD),
-            10 => scalar_parsers_on(KIND_ARR_NESTED),
-            _ => scalar_parsers_on(KIND_ARR_STRS),
-        }
+    fn c19_scalar_parsers_wrong_collection() {
+        scalar_parsers_on(KIND_ARR_NULL);
+        scalar_parsers_on(KIND_ARR_MIXED);
+        scalar_parsers_on(KIND_HASH_EMPTY);
+        scalar_parsers_on(KIND_ARR_NESTED);
+        scalar_parsers_on(KIND_ARR_STRS);
+        kani::cover!(true, "every call returned");
     }
 
     /// VERIF: {"p":"C19","tier":"quick","fns":["config::parse_i64","config::parse_num","config::parse_string","config::parse_boolean","config::parse_duration","config::parse_string_*","config::type_to_name"],"bounds":"each typed scalar parser on the empty sequence `[]` (e.g. `hop-limit: []`, `captive-portal: []`)","oracle":"Err(InvalidConfig), never a panic","stubs":["alloc::fmt::format -> empty string (message text only)"],"covers":1,"unwind":8}
@@ -387,30 +390,26 @@ mod k {
         std::mem::forget(y);
     }
 
-    /// VERIF: {"p":"C19","tier":"quick","fns":["config::parse_array","config::parse_string","config::parse_num::<u16>","config::type_to_name"],"bounds":"parse_array with element parsers parse_string and parse_num::<u16> on one value of every Yaml variant incl. `[]`, `[~]`, `[<int>, \"\"]`, `[\"a\",\"b\"]`, `[[true]]`, `{}`","oracle":"Null => Ok(None); array of right-typed elements => Ok(Some(all elements)); `[]` => Ok(Some([])); null element, wrong element type, non-array => Err(InvalidConfig); never a panic","stubs":["alloc::fmt::format -> empty string (message text only)","std::hash::RandomState::new -> fixed keys (creating the empty Hash)"],"covers":2,"unwind":8}
+    /// VERIF: {"p":"C19","tier":"quick","fns":["config::parse_array","config::parse_string","config::parse_num::<u16>","config::type_to_name"],"bounds":"parse_array with element parsers parse_string and parse_num::<u16> on, one after the other: Real, Integer(any), String, Boolean(any), Alias(any), Null, BadValue, the empty mapping, `[]`, `[~]`, `[<any int>, \"\"]`, `[\"a\",\"b\"]`, `[[true]]`","oracle":"Null => Ok(None); array of right-typed elements => Ok(Some(all elements)); `[]` => Ok(Some([])); null element, wrong element type, non-array => Err(InvalidConfig); never a panic","stubs":["alloc::fmt::format -> empty string (message text only)","std::hash::RandomState::new -> fixed keys (creating the empty Hash)"],"covers":1,"unwind":8}
     #[kani::proof]
     #[kani::unwind(8)]
     #[kani::stub(alloc::fmt::format, empty_format)]
     #[kani::stub(std::hash::RandomState::new, fixed_random_state)]
     fn c19_parse_array_wrong_type() {
-        let k: u8 = kani::any();
-        kani::cover!(k == 11, "array of strings");
-        kani::cover!(k == 4, "array holding null");
-        match k {
-            0 => array_parser_on(KIND_REAL),
-            1 => array_parser_on(KIND_INT),
-            2 => array_parser_on(KIND_STR),
-            3 => array_parser_on(KIND_BOOL),
-            4 => array_parser_on(KIND_ARR_NULL),
-            5 => array_parser_on(KIND_ARR_MIXED),
-            6 => array_parser_on(KIND_HASH_EMPTY),
-            7 => array_parser_on(KIND_ALIAS),
-            8 => array_parser_on(KIND_NULL),
-            9 => array_parser_on(KIND_BAD),
-            10 => array_parser_on(KIND_ARR_NESTED),
-            11 => array_parser_on(KIND_ARR_STRS),
-            _ => array_parser_on(KIND_ARR_EMPTY),
-        }
+        array_parser_on(KIND_REAL);
+        array_parser_on(KIND_INT);
+        array_parser_on(KIND_STR);
+        array_parser_on(KIND_BOOL);
+        array_parser_on(KIND_ALIAS);
+        array_parser_on(KIND_NULL);
+        array_parser_on(KIND_BAD);
+        array_parser_on(KIND_HASH_EMPTY);
+        array_parser_on(KIND_ARR_EMPTY);
+        array_parser_on(KIND_ARR_NULL);
+        array_parser_on(KIND_ARR_MIXED);
+        array_parser_on(KIND_ARR_STRS);
+        array_parser_on(KIND_ARR_NESTED);
+        kani::cover!(true, "every call returned");
     }
 
     /// VERIF: {"p":"C19","tier":"quick","fns":["config::parse_array","config::parse_string","config::type_to_name"],"bounds":"parse_array(parse_string) on `[[]]` (a list whose element is an empty list, e.g. `dns-search: [[]]`)","oracle":"Err(InvalidConfig), never a panic","stubs":["alloc::fmt::format -> empty string (message text only)"],"covers":1,"unwind":8}
